@@ -53,8 +53,31 @@ func (v *vclock) inc(i int) {
 	(*v)[i]++
 }
 
+// hv is a 128-bit running hash. Every thread carries the hash of its own
+// history: the hooked operations it has executed, and for every operation that
+// observes another thread's effect (a read, an overwriting write, an acquire)
+// the history hash of the operation observed. Two execution prefixes in which
+// every thread has the same history hash have the same happens-before graph
+// and therefore the same program state, shadow memory and vector clocks; the
+// explorer uses that to visit each such state once.
+type hv struct{ a, b uint64 }
+
+func mix64(x uint64) uint64 {
+	x += 0x9E3779B97F4A7C15
+	x = (x ^ (x >> 30)) * 0xBF58476D1CE4E5B9
+	x = (x ^ (x >> 27)) * 0x94D049BB133111EB
+	return x ^ (x >> 31)
+}
+
+func (h hv) fold(x uint64) hv {
+	return hv{mix64(h.a ^ x), mix64(h.b + x*0xD6E8FEB86659FD93 + 0x632BE59BD9B4E019)}
+}
+
+func (h hv) foldH(o hv) hv { return h.fold(o.a).fold(o.b) }
+
 type thread struct {
 	id       int
+	h        hv
 	resume   chan struct{}
 	vc       vclock
 	done     bool
@@ -72,7 +95,8 @@ type access struct {
 }
 
 type shadow struct {
-	w access
+	w  access
+	wh hv // history hash of the last writer at its write
 	r []access // last read per thread since the last write
 }
 
@@ -83,6 +107,7 @@ type Point struct {
 	RunningStillEnabled bool
 	Preemptions         int // preemptions used before this point
 	What                string
+	Key                 [2]uint64 // hash of the happens-before state before this decision
 }
 
 type sched struct {
@@ -129,7 +154,7 @@ type Result struct {
 func Run(prefix []int, maxSteps int, body func()) Result {
 	sc := &sched{yield: make(chan int), prefix: prefix, shadow: map[uintptr]*shadow{}, pinned: map[unsafe.Pointer]struct{}{}, raceSet: map[string]bool{}, maxStep: maxSteps}
 	s = sc
-	main := &thread{id: 0, resume: make(chan struct{}), vc: vclock{1}}
+	main := &thread{id: 0, resume: make(chan struct{}), vc: vclock{1}, h: hv{1, 2}}
 	sc.threads = append(sc.threads, main)
 	go func() {
 		<-main.resume
@@ -141,6 +166,7 @@ func Run(prefix []int, maxSteps int, body func()) Result {
 				}
 			}
 			main.done = true
+			main.h = main.h.fold('D')
 			sc.yield <- main.id
 		}()
 		body()
@@ -214,7 +240,7 @@ func (sc *sched) loop() {
 				}
 			}
 			runningEnabled := sc.cur != nil && en[0] == sc.cur.id
-			sc.points = append(sc.points, Point{Enabled: en, Choice: choice, RunningStillEnabled: runningEnabled, Preemptions: sc.preempt, What: what})
+			sc.points = append(sc.points, Point{Enabled: en, Choice: choice, RunningStillEnabled: runningEnabled, Preemptions: sc.preempt, What: what, Key: sc.stateKey()})
 			if runningEnabled && choice != 0 {
 				sc.preempt++
 			}
@@ -236,6 +262,30 @@ func (sc *sched) loop() {
 
 var lastWhat string
 
+// stateKey hashes the happens-before state: the multiset of thread history
+// hashes (thread ids are an artefact of spawn order, so they are left out) and
+// the history of the thread that ran last (it decides what a preemption costs).
+func (sc *sched) stateKey() [2]uint64 {
+	hs := make([]hv, len(sc.threads))
+	for i, t := range sc.threads {
+		hs[i] = t.h
+	}
+	sort.Slice(hs, func(i, j int) bool {
+		if hs[i].a != hs[j].a {
+			return hs[i].a < hs[j].a
+		}
+		return hs[i].b < hs[j].b
+	})
+	k := hv{3, 4}
+	for _, h := range hs {
+		k = k.foldH(h)
+	}
+	if sc.cur != nil {
+		k = k.fold('C').foldH(sc.cur.h)
+	}
+	return [2]uint64{k.a, k.b}
+}
+
 // yieldPoint hands control to the scheduler and waits to be resumed.
 func yieldPoint(what string) {
 	sc := s
@@ -250,6 +300,7 @@ func blockUntil(what string, cond func() bool) {
 	sc := s
 	t := sc.cur
 	for !cond() {
+		t.h = t.h.fold('B')
 		t.blocked = cond
 		lastWhat = what + " (blocked)"
 		sc.yield <- t.id
@@ -270,7 +321,8 @@ func Go(f func()) {
 	sc.nsync++
 	parent := sc.cur
 	yieldPoint("go")
-	t := &thread{id: len(sc.threads), resume: make(chan struct{}), vc: parent.vc.copyOf()}
+	parent.h = parent.h.fold('G')
+	t := &thread{id: len(sc.threads), resume: make(chan struct{}), vc: parent.vc.copyOf(), h: parent.h.fold(0xC41D)}
 	t.vc.inc(t.id)
 	parent.vc.inc(parent.id)
 	sc.threads = append(sc.threads, t)
@@ -283,6 +335,7 @@ func Go(f func()) {
 				}
 			}
 			t.done = true
+			t.h = t.h.fold('D')
 			sc.yield <- t.id
 		}()
 		f()
@@ -290,7 +343,10 @@ func Go(f func()) {
 }
 
 // SyncObj carries the vector clock of a synchronisation object.
-type SyncObj struct{ vc vclock }
+type SyncObj struct {
+	vc  vclock
+	rel hv // commutative sum of the history hashes of the releases so far
+}
 
 // Release publishes the current thread's history into o (unlock, Done, end of Once function).
 func Release(o *SyncObj) {
@@ -300,6 +356,9 @@ func Release(o *SyncObj) {
 	t := s.cur
 	o.vc.join(t.vc)
 	t.vc.inc(t.id)
+	t.h = t.h.fold('L')
+	o.rel.a += t.h.a
+	o.rel.b += t.h.b
 }
 
 // Acquire imports o's history into the current thread (lock, Wait return, Once.Do return).
@@ -308,6 +367,16 @@ func Acquire(o *SyncObj) {
 		return
 	}
 	s.cur.vc.join(o.vc)
+	s.cur.h = s.cur.h.fold('A').foldH(o.rel)
+}
+
+// Observe folds the outcome of a synchronisation operation that is not an
+// acquire (a failed TryLock, for instance) into the current thread's history.
+func Observe(x uint64) {
+	if s == nil {
+		return
+	}
+	s.cur.h = s.cur.h.fold('O').fold(x)
 }
 
 // SyncPoint is a scheduling point before a synchronisation operation.
@@ -317,6 +386,11 @@ func SyncPoint(what string) {
 	}
 	s.nsync++
 	s.cur.lastCell = 0
+	hw := uint64(len(what))
+	for i := 0; i < len(what); i++ {
+		hw = hw*131 + uint64(what[i])
+	}
+	s.cur.h = s.cur.h.fold('S').fold(hw)
 	yieldPoint(what)
 }
 
@@ -395,7 +469,10 @@ func mem(addr uintptr, size uintptr, kind int) {
 			}
 			sh.w = access{t.id, t.vc.get(t.id), pc, true}
 			sh.r = sh.r[:0]
+			t.h = t.h.fold(uint64(pc) ^ 0x5700000000000000).foldH(sh.wh)
+			sh.wh = t.h
 		} else {
+			t.h = t.h.fold(uint64(pc) ^ 0x5200000000000000).foldH(sh.wh)
 			found := false
 			for i := range sh.r {
 				if sh.r[i].tid == t.id {
